@@ -1,13 +1,17 @@
 /-
   C02 — draft selection: which `$schema` values select draft-07, which are refused, and what changes under draft-07
   (`$ref` siblings ignored, array-form `items` / `additionalItems`, `dependencies`; `minContains`, `maxContains`,
-  `unevaluatedItems`, `unevaluatedProperties` unknown — finding D27, repaired).
-  Property theorems only (helper lemmas: JSV/Proofs/InvDraft.lean, JSV/Proofs/ResDraft.lean; section "algebraic laws":
+  `unevaluatedItems`, `unevaluatedProperties` unknown — finding D27, repaired; `$dynamicRef` unknown, to Resolve too —
+  finding D28, repaired).
+  Property theorems only (helper lemmas: JSV/Proofs/InvDraft.lean, JSV/Proofs/InvLater.lean, JSV/Proofs/ResDraft.lean,
+  JSV/Proofs/ResLater.lean; section "algebraic laws":
   JSV/Proofs/SpecLaws*.lean).
 -/
 import JSV.Proofs.InvDraft
 import JSV.Proofs.InvLater
 import JSV.Proofs.ResDraft
+import JSV.Proofs.ResLater
+import JSV.Proofs.DflVal
 import JSV.Props.C01
 import JSV.Proofs.SpecLawsScope
 namespace JSV.C02
@@ -184,12 +188,14 @@ whatever the draft; `(*state).validate` now tests `st.rs.draft` before reading e
 the schema object restricted to the vocabulary of the draft (`Spec.vocab`).  `contains` itself is draft-07: at least
 one item matches. -/
 
-/-- the draft-07 vocabulary has none of the four; the 2020-12 vocabulary is the whole schema object -/
+/-- the draft-07 vocabulary has none of the four (nor `$dynamicRef`, finding D28 below); the 2020-12 vocabulary is the
+    whole schema object -/
 theorem vocab_spec (n : Node) :
     (Spec.vocab .d7 n).minContains = none ∧ (Spec.vocab .d7 n).maxContains = none ∧
     (Spec.vocab .d7 n).unevaluatedItems = none ∧ (Spec.vocab .d7 n).unevaluatedProperties = none ∧
+    (Spec.vocab .d7 n).dynamicRef = "" ∧
     Spec.vocab .d7 n = Inv.eraseLater n ∧ Spec.vocab .d2020 n = n :=
-  ⟨rfl, rfl, rfl, rfl, rfl, rfl⟩
+  ⟨rfl, rfl, rfl, rfl, rfl, rfl, rfl⟩
 
 /-- Spec, draft-07: `contains` asks for at least one matching item and evaluates the matching ones — whatever
     `minContains` / `maxContains` say -/
@@ -228,7 +234,8 @@ theorem draft7_model_blocks (rec : Go.Rec) (stack : List NodeId) (n : Node) (xs 
   · unfold bContains; simp
 
 /-- **Draft-07 ignores the keywords of later drafts.**  With the draft-07 `$schema`, erasing `minContains`,
-    `maxContains`, `unevaluatedItems` and `unevaluatedProperties` from every schema object of the store changes no
+    `maxContains`, `unevaluatedItems`, `unevaluatedProperties` and `$dynamicRef` (`Inv.eraseLater` clears the five; for
+    Schema.Resolve see `draft7_ignores_dynamicRef`) from every schema object of the store changes no
     outcome — of the Spec (definedness, verdict, evaluated sets; every fuel, scope, schema, instance) nor of the
     evaluator (verdict, annotations, panic, fuel; every stack, Go value, schema). -/
 theorem draft7_ignores_later_keywords (env : VEnv) (hd : env.draft = .d7) :
@@ -264,6 +271,74 @@ theorem draft7_ignores_later_keywords_entry (env : VEnv) (hd : env.draft = .d7) 
           else Res.bind (validateFuel { env with st := env.st.map Inv.eraseLater } fuel [] inst root)
             fun _ => .ok ()) = _
     rw [Inv.validateFuel_later7 env hd]
+
+/-! ## draft-07: `$dynamicRef` is an unknown keyword, to Resolve too (finding D28, repaired)
+
+`$dynamicRef` / `$dynamicAnchor` were introduced by 2020-12.  resolveURIs registered `$dynamicAnchor` under 2020-12 only,
+but resolveRefs resolved every `$dynamicRef` (loading documents, failing on dangling ones) and `(*state).validate`
+applied it whatever the draft: `{"$schema": draft-07, "$dynamicRef": "#/definitions/x", "definitions": {"x": {"type":
+"string"}}}` rejected `1`, and `{"$schema": draft-07, "$dynamicRef": "#nosuch"}` did not resolve.  Now resolveRefs tests
+`rs.draft` (the draft of the document the schema belongs to), `(*state).validate` tests `st.rs.draft` and that the
+reference was resolved (a draft-07 document loaded by a 2020-12 one), validateDefaults refuses it under 2020-12 only; the
+Spec blanks it in the draft-07 vocabulary (`Spec.vocab`). -/
+
+/-- the evaluator and validateDefaults, draft-07: the `$dynamicRef` block applies nothing, whatever the tables hold -/
+theorem draft7_dynamicRef_block (env : VEnv) (hd : env.draft = .d7) (rec : Go.Rec) (stack : List NodeId) (n : Node)
+    (info : Option Info) (inst : GoVal) (anns : Anns) :
+    bDynamicRef env rec stack n info inst anns = .ok anns :=
+  bDynamicRef_d7 env hd rec stack n info inst anns
+
+/-- the evaluator, 2020-12: a `$dynamicRef` that Resolve left unresolved (its document is a draft-07 document loaded by
+    this 2020-12 one) is skipped — it used to trip the assertion "DynamicRef not resolved properly" -/
+theorem unresolved_dynamicRef_skipped (env : VEnv) (rec : Go.Rec) (stack : List NodeId) (n : Node) (i : Info)
+    (hi : i.resolvedDynamicRef = none) (inst : GoVal) (anns : Anns) :
+    bDynamicRef env rec stack n (some i) inst anns = .ok anns := by
+  unfold bDynamicRef
+  split
+  · simp only [hi]
+  · rfl
+
+/-- **Draft-07 ignores `$dynamicRef`.**  Erasing `$dynamicRef` from every schema object of the store changes
+    * no outcome of Schema.Resolve (`Go.resolve`: the same success / error / panic / fuel, the same tables — none of which
+      holds an entry for a `$dynamicRef` — and the same Loader calls), when the top document is read under draft-07 and
+      every Loader document declares no `$schema` or a draft-07 one (`LoaderDeclares`: a loaded 2020-12 document keeps its
+      `$dynamicRef`s, which Resolve resolves);
+    * no outcome of the Spec, nor of the evaluator, under the draft-07 `$schema` (every fuel, scope / stack, schema,
+      instance). -/
+theorem draft7_ignores_dynamicRef :
+    (∀ (renv : Go.Env), RDraft.LoaderDeclares renv .d7 → ∀ fuel root base, Spec.topDraft renv root = .d7 →
+      Go.resolve { renv with st := renv.st.map Inv.eraseDynRef } fuel root base = Go.resolve renv fuel root base) ∧
+    (∀ (env : VEnv), env.draft = .d7 →
+      (∀ fuel scope s j,
+        Spec.evalFuel (specEnvOf { env with st := env.st.map Inv.eraseDynRef }) fuel scope s j
+          = Spec.evalFuel (specEnvOf env) fuel scope s j) ∧
+      (∀ fuel stack i s,
+        Go.validateFuel { env with st := env.st.map Inv.eraseDynRef } fuel stack i s
+          = Go.validateFuel env fuel stack i s)) :=
+  ⟨fun renv hload fuel root base htop => RLater.resolve_erase renv hload fuel root base htop,
+   fun env hd => ⟨Inv.evalFuel_dyn7 (specEnvOf env) hd, Inv.validateFuel_dyn7 env hd⟩⟩
+
+/-- a self-contained document (no Loader): the hypothesis on the Loader is void -/
+theorem draft7_ignores_dynamicRef_noloader (renv : Go.Env) (hl : renv.loader = none) (fuel : Nat) (root : NodeId)
+    (base : String) (htop : Spec.topDraft renv root = .d7) :
+    Go.resolve { renv with st := renv.st.map Inv.eraseDynRef } fuel root base = Go.resolve renv fuel root base :=
+  draft7_ignores_dynamicRef.1 renv (by intro tbl k r h; rw [hl] at h; cases h) fuel root base htop
+
+/-- … hence under draft-07 Resolve records nothing for `$dynamicRef`: after a successful Resolve of a self-contained
+    draft-07 document, whether a `$dynamicRef` designates anything is immaterial (`C03.dangling_ref_is_error` asks for
+    `topDraft = .d2020`), and validateDefaults does not refuse it (`C15.validateDefaults_iff`). -/
+theorem draft7_validateDefaults_ignores_dynamicRef (env : VEnv) (hd : env.draft = .d7) (fuel : Nat) (ids : List NodeId) :
+    Go.validateDefaultsLoop env fuel ids = .ok () ↔
+      ∀ id ∈ ids, ∃ n, env.st.get? id = some n ∧
+        ∀ d, n.default = some d → (validateFuel env fuel [] (GoVal.ofJson d) id).isOk = true := by
+  rw [C15.validateDefaultsLoop_iff]
+  constructor
+  · intro h id hid
+    obtain ⟨n, hn, _, h2⟩ := h id hid
+    exact ⟨n, hn, h2⟩
+  · intro h id hid
+    obtain ⟨n, hn, h2⟩ := h id hid
+    exact ⟨n, hn, (fun h20 => by rw [hd] at h20; cases h20), h2⟩
 
 /-- under 2020-12 nothing changed: the Spec reads the whole schema object -/
 theorem draft2020_vocab (env : Spec.Env) (hd : env.draft = .d2020) (n : Node) : Spec.vocab env.draft n = n := by
@@ -628,5 +703,71 @@ example (fuel : Nat) (i : GoVal) :
 /-- the hypothesis `env.draft = .d7` cannot be dropped: under 2020-12 the erasure flips the verdict on `[1]` -/
 example : (Go.validateFuel { laterEnv20 with st := #[{ contains := some 1 }, { type := "number" }] } 3 []
     (GoVal.ofJson (.arr [.num 1])) 0).verdict = some true := by decide
+
+/-! ### finding D28: the witness documents -/
+
+/-- `{"$schema": S, "$dynamicRef": "#/definitions/x", "definitions": {"x": {"type": "string"}}}` -/
+def dynStore (schemaURI : String) : Store := #[
+  { schema := schemaURI, dynamicRef := "#/definitions/x", definitions := some [("x", 1)] },
+  { type := "string" } ]
+/-- `{"$schema": S, "$dynamicRef": "#nosuch"}` -/
+def dangStore (schemaURI : String) : Store := #[{ schema := schemaURI, dynamicRef := "#nosuch" }]
+def d7URI : String := "http://json-schema.org/draft-07/schema#"
+def d20URI : String := "https://json-schema.org/draft/2020-12/schema"
+def renvOf (st : Store) : Go.Env := { st := st, reOk := fun _ => true, loader := none }
+/-- Schema.Resolve, then Validate on the tables it returns -/
+def resolveThenValidate (st : Store) (j : Json) : Res Unit :=
+  Res.bind (Go.resolve (renvOf st) 3 0 "") fun rs =>
+    Go.validate { st := st, draft := rs.draft, infos := rs.infos, reMatch := fun _ _ => false, hash := fun _ => 0 }
+      Generated.supportedVersions 3 0 (GoVal.ofJson j)
+
+/-- draft-07: the `$dynamicRef` is not resolved (no target is recorded) and `1` is valid … -/
+example : ((Go.resolve (renvOf (dynStore d7URI)) 3 0 "").bind fun rs =>
+    .ok (rs.draft, rs.infos.map fun e => (e.1, e.2.resolvedDynamicRef))) = .ok (.d7, [(0, none), (1, none)]) := by
+  decide +kernel
+example : resolveThenValidate (dynStore d7URI) (.num 1) = .ok () := by decide +kernel
+example : resolveThenValidate (dynStore d7URI) (.str "a") = .ok () := by decide +kernel
+/-- … 2020-12: it is resolved to `/definitions/x` and `1` is not a string -/
+example : ((Go.resolve (renvOf (dynStore d20URI)) 3 0 "").bind fun rs =>
+    .ok (rs.draft, rs.infos.map fun e => (e.1, e.2.resolvedDynamicRef))) = .ok (.d2020, [(0, some 1), (1, none)]) := by
+  decide +kernel
+example : resolveThenValidate (dynStore d20URI) (.num 1) = .err := by decide +kernel
+example : resolveThenValidate (dynStore d20URI) (.str "a") = .ok () := by decide +kernel
+/-- the dangling `$dynamicRef`: draft-07 resolves (and accepts everything), 2020-12 does not -/
+example : resolveThenValidate (dangStore d7URI) (.num 1) = .ok () := by decide +kernel
+example : (Go.resolve (renvOf (dangStore d20URI)) 3 0 "").isOk = false := by decide +kernel
+/-- the hypotheses of `draft7_ignores_dynamicRef` hold on the draft-07 witnesses … -/
+example : Spec.topDraft (renvOf (dynStore d7URI)) 0 = .d7 ∧ Spec.topDraft (renvOf (dangStore d7URI)) 0 = .d7 := by
+  decide +kernel
+example (fuel : Nat) (base : String) :
+    Go.resolve { renvOf (dangStore d7URI) with st := (dangStore d7URI).map Inv.eraseDynRef } fuel 0 base
+      = Go.resolve (renvOf (dangStore d7URI)) fuel 0 base :=
+  draft7_ignores_dynamicRef_noloader (renvOf (dangStore d7URI)) rfl fuel 0 base (by decide +kernel)
+/-- … the erased document being `{"$schema": draft-07}` -/
+example : (dangStore d7URI).map Inv.eraseDynRef = #[{ schema := d7URI }] := by
+  simp [dangStore, Inv.eraseDynRef]
+/-- … and not on the 2020-12 ones, where the erasure changes the outcome of Resolve -/
+example : Spec.topDraft (renvOf (dangStore d20URI)) 0 = .d2020 := by decide +kernel
+example : (Go.resolve { renvOf (dangStore d20URI) with st := (dangStore d20URI).map Inv.eraseDynRef } 3 0 "").isOk = true := by
+  decide +kernel
+/-- a Loader document that declares 2020-12 under a draft-07 root keeps its `$dynamicRef`: `LoaderDeclares` fails, and
+    Resolve does fail on the dangling reference of the loaded document -/
+def mixedEnv : Go.Env :=
+  { st := #[{ schema := d7URI, allOf := some [1] }, { ref := "http://x/a.json" }, { schema := d20URI, dynamicRef := "#nosuch" }],
+    reOk := fun _ => true, loader := some [("http://x/a.json", .doc 2)] }
+example : (Go.resolve mixedEnv 4 0 "http://x/root.json").isOk = false := by decide +kernel
+example : (Go.resolve { mixedEnv with st := mixedEnv.st.map Inv.eraseDynRef } 4 0 "http://x/root.json").isOk = true := by
+  decide +kernel
+/-- the converse mix: a draft-07 document (dangling `$dynamicRef`) loaded by a 2020-12 root resolves; Validate (root
+    draft: 2020-12) skips the unresolved reference instead of panicking -/
+def mixedEnv' : Go.Env :=
+  { st := #[{ schema := d20URI, ref := "http://x/a.json" }, { schema := d7URI, dynamicRef := "#nosuch", type := "integer" }],
+    reOk := fun _ => true, loader := some [("http://x/a.json", .doc 1)] }
+example : (Res.bind (Go.resolve mixedEnv' 4 0 "http://x/root.json") fun rs =>
+    Go.validate { st := mixedEnv'.st, draft := rs.draft, infos := rs.infos, reMatch := fun _ _ => false, hash := fun _ => 0 }
+      Generated.supportedVersions 4 0 (GoVal.ofJson (.num 1))) = .ok () := by decide +kernel
+example : (Res.bind (Go.resolve mixedEnv' 4 0 "http://x/root.json") fun rs =>
+    Go.validate { st := mixedEnv'.st, draft := rs.draft, infos := rs.infos, reMatch := fun _ _ => false, hash := fun _ => 0 }
+      Generated.supportedVersions 4 0 (GoVal.ofJson (.str "a"))) = .err := by decide +kernel
 
 end JSV.C02
